@@ -526,8 +526,10 @@ def run_mounts_case(case, acc, tmpdir):
     if res[0] == "exc":
         viols.append((f"cext_disk_partitions_exception:{type(res[1]).__name__}", f"{res[1]!r}"))
     elif res[0] == "UnicodeDecodeError":
-        if not nonutf and not uncertain:
-            viols.append(("cext_disk_partitions_unicode_error_on_utf8_input", f"{res[1]!r}"))
+        # "returns each mount entry's device, mount point, type and options": options embed paths (overlay lowerdir=...), so
+        # bytes that are not UTF-8 are as legitimate there as in the mount point, and must not cost the whole table
+        if not uncertain:
+            viols.append(("cext_disk_partitions_unicode_error" + (":non_utf8_type_or_options" if nonutf else "_on_utf8_input"), f"{res[1]!r}"))
     elif not uncertain:
         got = [(os.fsencode(a), os.fsencode(b), os.fsencode(c), os.fsencode(d)) for a, b, c, d in raw]
         acc.count("mount_entries_compared", len(want))
@@ -549,7 +551,9 @@ def run_mounts_case(case, acc, tmpdir):
         ps.PROCFS_PATH = old
     if pres[0] == "exc":
         viols.append((f"disk_partitions_exception:{type(pres[1]).__name__}", f"{pres[1]!r}"))
-    elif pres[0] == "ok" and not uncertain and not nonutf:
+    elif pres[0] == "UnicodeDecodeError" and not uncertain and res[0] != "UnicodeDecodeError":
+        viols.append(("disk_partitions_exception:UnicodeDecodeError", f"{pres[1]!r}"))
+    elif pres[0] == "ok" and not uncertain:
         fst = set(case["fstypes"]) | ({"zfs"} if case["zfs_nodev"] else set())
         exp = []
         for dev, d, t, o in want:
